@@ -10,12 +10,15 @@ int verif_thrown; bool verif_may_throw;
 #define MAXT 2
 #endif
 struct Assumptions;
-struct RealVisitor; struct PositiveVisitor; struct NegativeVisitor;
+struct RealVisitor; struct PositiveVisitor; struct NegativeVisitor; struct IntegerVisitor; struct ComplexVisitor;
 struct Basic {
   int re, im;                                  /* ghost value */
-  tribool real_answer, pos_answer, neg_answer; /* what the visitors answer for this child: any SOUND tribool (harness assumption) */
+  tribool real_answer, pos_answer, neg_answer, int_answer, cplx_answer; /* what the visitors answer for this child: any SOUND tribool (harness assumption) */
+  bool finite;                                 /* ghost: the child's value is a (finite) complex number; false models zoo / nan / oo */
   void accept(RealVisitor &v) const;
   void accept(PositiveVisitor &v) const;
+  void accept(IntegerVisitor &v) const;
+  void accept(ComplexVisitor &v) const;
   bool is_complex() const { return im != 0; }  /* Number::is_complex of the numeric coefficient */
   bool is_positive() const { return im == 0 && re > 0; }
   bool is_negative() const { return im == 0 && re < 0; }
@@ -25,7 +28,7 @@ struct vec_basic { RCPBasic d[MAXT + 1]; unsigned n; unsigned size() const { ret
 struct dict_entry { RCPBasic first, second; };
 struct term_dict { dict_entry e[MAXT]; unsigned n; unsigned size() const { return n; } dict_entry at(unsigned k) const { dict_entry r; r.first = e[k < MAXT ? k : 0].first; r.second = e[k < MAXT ? k : 0].second; return r; } };
 struct Add { RCPBasic coef; term_dict dict; vec_basic args; RCPBasic get_coef() const { return coef; } term_dict get_dict() const { return dict; } vec_basic get_args() const { return args; } };
-struct Mul { RCPBasic coef; term_dict dict; RCPBasic get_coef() const { return coef; } term_dict get_dict() const { return dict; } };
+struct Mul { RCPBasic coef; term_dict dict; vec_basic args; RCPBasic get_coef() const { return coef; } term_dict get_dict() const { return dict; } vec_basic get_args() const { return args; } };
 struct NegativeVisitor { Assumptions *a; NegativeVisitor(Assumptions *x) { a = x; } tribool apply(const Basic &b) { return b.neg_answer; } };
 struct RealVisitor {
   tribool is_real_; Assumptions *assumptions_;
@@ -33,9 +36,14 @@ struct RealVisitor {
   /* CONTRACT of check_power(base, exp): a sound answer about the factor base**exp, whose ghost value is attached to 'base' here */
   void check_power(const RCPBasic &base, const RCPBasic &exp) { is_real_ = base->real_answer; }
 };
+struct IntegerVisitor { tribool is_integer_; Assumptions *assumptions_; void bvisit_Add(const Add &x); void bvisit_Mul(const Mul &x); };
+struct ComplexVisitor { tribool is_complex_; Assumptions *assumptions_; void bvisit_Add(const Add &x); void bvisit_Mul(const Mul &x);
+  void check_power(const Basic &base, const Basic &exp) { is_complex_ = base.cplx_answer; } };      /* CONTRACT of check_power: a sound answer about the factor */
 struct PositiveVisitor { tribool is_positive_; Assumptions *assumptions_; void bvisit_Add(const Add &x); };
 inline void Basic::accept(RealVisitor &v) const { v.is_real_ = real_answer; }
 inline void Basic::accept(PositiveVisitor &v) const { v.is_positive_ = pos_answer; }
+inline void Basic::accept(IntegerVisitor &v) const { v.is_integer_ = int_answer; }
+inline void Basic::accept(ComplexVisitor &v) const { v.is_complex_ = cplx_answer; }
 #include "rules.inc"
 static bool valid(tribool t) { return t == tribool::indeterminate || t == tribool::trifalse || t == tribool::tritrue; }
 static bool sound(tribool t, bool P) { return (!is_true(t) || P) && (!is_false(t) || !P); }
@@ -44,7 +52,8 @@ Basic ch0, ch1, ch2, cf0, cf1, cf2, c0;
 static void any_child(Basic &c, int lo, int hi)
 {
   c.re = nondet_int(); c.im = nondet_int(); __CPROVER_assume(lo <= c.re && c.re <= hi && lo <= c.im && c.im <= hi);
-  c.real_answer = any_tribool(); c.pos_answer = any_tribool(); c.neg_answer = any_tribool();
+  c.real_answer = any_tribool(); c.pos_answer = any_tribool(); c.neg_answer = any_tribool(); c.int_answer = any_tribool(); c.cplx_answer = any_tribool(); c.finite = true;
+  __CPROVER_assume(sound(c.int_answer, c.im == 0) && sound(c.cplx_answer, c.finite));      /* re is an integer in this model: 'integer' <=> real */
   __CPROVER_assume(sound(c.real_answer, c.im == 0) && sound(c.pos_answer, c.im == 0 && c.re > 0) && sound(c.neg_answer, c.im == 0 && c.re < 0));
 }
 #ifdef KF_C34_REAL_TIMES_POSSIBLY_ZERO
@@ -101,4 +110,37 @@ extern "C" void h_positive_add(void)
   OBL("C34.PositiveVisitor.Add.definite_true_is_true_of_the_sum", !is_true(v.is_positive_) || positive);
   OBL("C34.PositiveVisitor.Add.definite_false_is_true_of_the_sum", !is_false(v.is_positive_) || !positive);
   REACHABLE("h_positive_add");
+}
+
+extern "C" void h_integer_add_mul(void)
+{
+  /* ghost values are Gaussian integers: a child "is an integer" iff its imaginary part is 0 */
+  any_child(ch0, -2, 2); any_child(ch1, -2, 2); any_child(ch2, -2, 2);
+  unsigned n = nondet_uint(); __CPROVER_assume(2 <= n && n <= MAXT + 1);
+  bool mul = nondet_boolean();
+  IntegerVisitor v; v.assumptions_ = 0; v.is_integer_ = tribool::indeterminate; verif_may_throw = false;
+  int sr = ch0.re + ch1.re + (n == 3 ? ch2.re : 0), si = ch0.im + ch1.im + (n == 3 ? ch2.im : 0);
+  int pr = ch0.re * ch1.re - ch0.im * ch1.im, pi = ch0.re * ch1.im + ch0.im * ch1.re;
+  if (n == 3) { int t = pr * ch2.re - pi * ch2.im; pi = pr * ch2.im + pi * ch2.re; pr = t; }
+  if (mul) { Mul x; x.args.n = n; x.args.d[0] = &ch0; x.args.d[1] = &ch1; x.args.d[2] = &ch2; v.bvisit_Mul(x); }
+  else { Add x; x.args.n = n; x.args.d[0] = &ch0; x.args.d[1] = &ch1; x.args.d[2] = &ch2; v.bvisit_Add(x); }
+  OBL("C34.IntegerVisitor.AddMul.definite_true_is_true_of_the_result", !is_true(v.is_integer_) || (mul ? pi == 0 : si == 0));
+  OBL("C34.IntegerVisitor.AddMul.definite_false_is_true_of_the_result", !is_false(v.is_integer_) || (mul ? pi != 0 : si != 0));
+  REACHABLE("h_integer_add_mul");
+}
+extern "C" void h_complex_add_mul(void)
+{
+  /* "is_complex" = the value is a finite complex number; a non-finite child (zoo, nan, oo) may make the result non-finite or not */
+  any_child(ch0, -1, 1); any_child(ch1, -1, 1); any_child(ch2, -1, 1);
+  ch0.finite = nondet_boolean(); ch1.finite = nondet_boolean(); ch2.finite = nondet_boolean();
+  __CPROVER_assume(sound(ch0.cplx_answer, ch0.finite) && sound(ch1.cplx_answer, ch1.finite) && sound(ch2.cplx_answer, ch2.finite));
+  unsigned n = nondet_uint(); __CPROVER_assume(2 <= n && n <= MAXT + 1);
+  bool mul = nondet_boolean();
+  ComplexVisitor v; v.assumptions_ = 0; v.is_complex_ = tribool::indeterminate; verif_may_throw = false;
+  bool all_finite = ch0.finite && ch1.finite && (n < 3 || ch2.finite);
+  if (mul) { Mul x; x.dict.n = n - 1; x.dict.e[0].first = &ch0; x.dict.e[0].second = &cf0; x.dict.e[1].first = &ch1; x.dict.e[1].second = &cf1; __CPROVER_assume(n == 3 || true); all_finite = ch0.finite && (n < 3 || ch1.finite); v.bvisit_Mul(x); }
+  else { Add x; x.args.n = n; x.args.d[0] = &ch0; x.args.d[1] = &ch1; x.args.d[2] = &ch2; v.bvisit_Add(x); }
+  /* a sum / product of finite complex numbers is a finite complex number: a definite 'true' needs every operand finite */
+  OBL("C34.ComplexVisitor.AddMul.definite_true_only_if_every_operand_is_finite", !is_true(v.is_complex_) || all_finite);
+  REACHABLE("h_complex_add_mul");
 }
